@@ -427,6 +427,9 @@ where
                     }
                     Ok(None) => (),
                 }
+            } else if let Err(err) = res {
+                // same as `handle_result`: an error does not wait for earlier responses
+                self.state.error.set(Some(IoDispatcherError::Service(err)));
             } else {
                 queue.push_back(ServiceResult::Ready(res));
                 self.state.response_idx.set(self.state.base.get().wrapping_add(queue.len()));
